@@ -12,7 +12,6 @@
 package c01
 
 import (
-	"bytes"
 	"context"
 	"encoding/json"
 	"errors"
@@ -339,5 +338,3 @@ func TestReplay(t *testing.T) {
 	}
 	stats.Record(t, c, RunCase(c))
 }
-
-var _ = bytes.MinRead
